@@ -63,6 +63,15 @@ def run(ctx):
         if got != want:
             viol.append({"what": "decoder verdict differs from the well-formedness predicate of the standard",
                          "input": {"fn": fn, "args": [core.show(a) for a in args]}, "expected": list(want), "observed": list(got)})
+        if evals % 4 == 0:      # the block carried by a bytearray (e.g. a slice of a receive buffer): same verdict
+            a2 = tuple(bytearray(a) if isinstance(a, bytes) else a for a in args)
+            got2 = core.impl_call(fn, a2)
+            evals += 1
+            dist["carrier:bytearray"] = dist.get("carrier:bytearray", 0) + 1
+            if got2 != want or bytes(a2[0]) != args[0]:
+                viol.append({"what": "decoder verdict for a block passed as bytearray differs from the well-formedness predicate (or the buffer was modified)",
+                             "input": {"fn": fn, "args": [core.show(a) for a in args], "types": ["bytearray"] + ["str"] * (len(args) - 1)},
+                             "expected": list(want), "observed": list(got2)})
         lines.append(core.model_line(fn, args))
         expect.append(want)
 
